@@ -31,4 +31,9 @@ ASSUME \A p \in {0, 1, 2, 255, 256, 32767, 32768, 32769, 65535} :
        \A ts \in {<<0, 0, 0, 0>>, <<255, 255, 255, 255>>, <<1, 2, 3, 4>>} :
           HeaderRoundTrip(ts, p, n)
 ASSUME \A p \in {0, 2, 32767, 32768, 65535} : Xor8000(Xor8000(p)) = p /\ Xor8000(p) # p
+
+\* head-of-line blocking (named deviation in Mux.tla): the server of protocol 1 on B stops dequeuing
+Stalled == { Ag("B", 1, "s") }
+HOLSpec == SpecStalled(Stalled)
+HOLFree == OthersEventuallyDelivered(Stalled)
 =============================================================================
